@@ -204,4 +204,19 @@ theorem add_any_table_frame_partial (s : TdfSt) (b : BlkArg) (c : Str) (now : In
     have := List.any_eq_false.mp hh y hy
     simpa using this
 
+
+/-- FOREIGN FILES, table level (`_partial`), HISTORIES: on ANY table — any order of the entries, gaps, unused slots anywhere — a block
+    whose type no call of the history is about keeps its format code, size, creation and modification date and comment through every
+    finite mix of accepted and refused add / remove / replace / setter calls ("blocks never touched, including blocks of types the
+    library cannot decode"). Offsets may change (`remove_any_table_frame_partial` says how); that the payload bytes move with them is
+    what `frame_history` proves for compact layouts and the frame-condition oracle checks on foreign files. -/
+theorem foreign_frame_history_partial (s : TdfSt) (ops : List Op) (hops : ∀ op ∈ ops, TableOp op) (x : Entry) (hx : x ∈ s.entries)
+    (hx0 : x.typ ≠ 0) (hxt : ∀ op ∈ ops, x.typ ≠ op.typ) :
+    ∃ x' ∈ (runOps s ops).entries, x'.typ = x.typ ∧ x'.fmt = x.fmt ∧ x'.size = x.size ∧ x'.cdate = x.cdate ∧ x'.mdate = x.mdate
+      ∧ x'.comment = x.comment := by
+  obtain ⟨x', h1, h2⟩ := frame_history_any s ops hops x hx hx0 hxt
+  refine ⟨x', h1, ?_⟩
+  simp only [Entry.meta, Prod.mk.injEq] at h2
+  exact h2
+
 end Tdf.C04
